@@ -55,7 +55,8 @@ pub fn expand_type_support(input: &DeriveInput) -> Result<TokenStream> {
 
             let mut next_auto_id = 0;
             for (member_index, member) in xtypes_struct.fields.iter().enumerate() {
-                let index = member_index as u32;
+                // position among the published members (a non_serialized member is not published)
+                let index = member_list.len() as u32;
                 let struct_member_attributes = get_structure_member_attributes(member)?;
 
                 let member_name = member
@@ -175,6 +176,8 @@ pub fn expand_type_support(input: &DeriveInput) -> Result<TokenStream> {
                     quote! { <#member_type as dust_dds::xtypes::type_support::Type>::TYPE}
                 };
 
+                // a non_serialized member is not part of the published (serialized) type
+                if !struct_member_attributes.non_serialized {
                 member_list.push(quote! {
                      dust_dds::xtypes::dynamic_type::DynamicTypeMember {
                         descriptor: dust_dds::xtypes::dynamic_type::MemberDescriptor {
@@ -194,6 +197,7 @@ pub fn expand_type_support(input: &DeriveInput) -> Result<TokenStream> {
                         }
                     }
                 });
+                }
 
                 let member_type = &member.ty;
                 let member_default_value = default_value
